@@ -177,6 +177,16 @@ func cmdCheck(args []string) int {
 			j.wall = time.Since(th)
 			rep.jobs = append(rep.jobs, j)
 			fmt.Printf("  %-44s paths=%d %v viol=%d notcov=%d  %.1fs\n", fn.Name(), j.paths, j.statusCount, len(j.violations), len(j.notCovered), j.wall.Seconds())
+			if *verbose {
+				fmt.Printf("      infeasible: %v\n", j.infeasibleWhy)
+			}
+			seenMsg := map[string]bool{}
+			for _, v := range j.violations {
+				if k := v.Label + ": " + v.Msg; !seenMsg[k] {
+					seenMsg[k] = true
+					fmt.Printf("      engine counterexample: %s\n", k)
+				}
+			}
 			if *verbose || true {
 				for _, k := range sortedKeys(j.notCovered) {
 					fmt.Printf("      not covered: %s (×%d)\n", k, j.notCovered[k])
